@@ -675,6 +675,10 @@ class DAGRunConcurrentManager(DAGRunManagerLike):
 
         to_unlock_descendants = True
 
+        # A node requested by several scopes is executed by the first request, the other ones wait for it.
+        # Only the executing request may release the waiting ones.
+        is_executor = not self._node_storage.exists_processed_node(node_id)
+
         try:
             result = await self._execute_node(
                 force_default=force_default,
@@ -706,7 +710,9 @@ class DAGRunConcurrentManager(DAGRunManagerLike):
         finally:
             if not to_unlock_descendants:
                 logger.debug('Skip unlocking the descendants of the node, node_id=%s', node_id)
-                self.__unlock_execution_lock(node_id)
+
+                if is_executor:
+                    self.__unlock_execution_lock(node_id)
 
                 # Unlock itself to perform the next step in the node's DAG
                 await self.__unlock_itself(node_id)
@@ -715,7 +721,8 @@ class DAGRunConcurrentManager(DAGRunManagerLike):
 
             logger.debug('Start the procedure of unlocking dependencies node_id=%s', node_id)
 
-            self.__unlock_execution_lock(node_id)
+            if is_executor:
+                self.__unlock_execution_lock(node_id)
 
             await self.__unlock_descendants(node_id)
             await self.__unlock_run_method()
